@@ -19,6 +19,18 @@ CHECKS = {
  "C18": ("model_checking", "explicit-state BFS over operation histories; flag/file agreement oracle",
    "in every quiescent explored state with need_flush_meta()==false: no dirty slice or top-table block in RAM, a device opened on a copy of the file sweeps equal, checker safe mode passes",
    "as C01; hook H4 state dump", "5 C18"),
+ "C04": ("fault_enumeration", "exhaustive crash-image enumeration over the backend request log of every explored history",
+   "for every transition of the history BFS, every fsync window it touches is expanded into all crash images (durable image x per-block choice among un-synced versions) and each distinct image is judged by the independent checker in safe mode (structure, initialised tables, no under-counted reachable cluster)",
+   "crash model = POSIX contract (anything not covered by a completed fsync may persist, vanish or tear at 512-byte granularity); SpecKit checker", "5 C04"),
+ "C05": ("fault_enumeration", "exhaustive crash-image enumeration; the library re-opens every crash image",
+   "same crash images as C04 plus the crash point right after each sync; the library opens each image and every block that held synced data must read its synced value or the value of an operation issued after the sync",
+   "as C04", "5 C05"),
+ "C06": ("model_checking", "stateless deviation-bounded exploration of all schedules under a deterministic executor; per-block linearizability by brute force",
+   "for 2-3 concurrent API calls per scenario (all pairs of a colliding menu x set-ups x cache sizes + curated triples) every interleaving of task polls and backend completions within the deviation bound is executed on the real code; each execution's reads and final content must be explained by some real-time-respecting order per block, and the content must survive flush+reopen",
+   "task polls are atomic (single-threaded async); executor owns poll order and completion order; SimIo", "5 C06"),
+ "C07": ("model_checking", "stateless deviation-bounded exploration of all schedules; deadlock/livelock/spurious-error detection",
+   "same executions as C06: unfinished tasks with no enabled action = deadlock, step budget exceeded = livelock, Err from a valid call under a fault-free backend = spurious failure",
+   "as C06", "5 C07"),
 }
 NA = {}
 def main():
